@@ -605,8 +605,10 @@ def gcc_supported(c):
     return False
 
 
-def c_callee(name, c, b, m, model_x):
-    """C source of a callee for prototype c that checks its arguments"""
+def c_callee(name, c, b, m, model_x, info=None):
+    """C source of a callee for prototype c that checks its arguments.  With `info` (a dict) also emits
+    `int c05_chk_<name> (RT r)` (1 = the value a caller got back is wrong) and fills info with what a C
+    caller needs: struct declarations, return type, parameter types."""
     out = []
     args = all_args(c)
     nnamed = len(c["args"])
@@ -693,7 +695,187 @@ def c_callee(name, c, b, m, model_x):
     if rstmt:
         out.append(rstmt)
     out.append("}")
+    if info is not None:
+        if len(res) == 0:
+            out.append(f"int c05_chk_{name} (void) {{ return 0; }}")
+        elif len(res) == 1:
+            n = 10 if res[0] == "ld" else f"sizeof (e)"
+            out.append(f"int c05_chk_{name} ({rtype} r) {{ {rtype} e = {rval(0)}; return memcmp (&r, &e, {n}) != 0; }}")
+        else:
+            out.append(f"int c05_chk_{name} ({rtype} r) {{ {rtype} e; e.a = {v0}; e.b = {v1}; "
+                       f"return memcmp (&r.a, &e.a, 8) != 0 || memcmp (&r.b, &e.b, 8) != 0; }}")
+        info["decls"] = [l for l in out if l.startswith("struct ") and l.rstrip().endswith("};")]
+        info["rtype"] = rtype
+        info["params"] = params
     return "\n".join(out) + "\n"
+
+
+# ----------------------------------------------------------------------------- C compiled by c2mir calls gcc callees
+
+C2M_T = {"int8_t": "signed char", "uint8_t": "unsigned char", "int16_t": "short", "uint16_t": "unsigned short",
+         "int32_t": "int", "uint32_t": "unsigned", "int64_t": "long", "uint64_t": "unsigned long"}
+
+
+def c2m_types(txt):
+    import re
+    return re.sub(r"\b(u?int(?:8|16|32|64)_t)\b", lambda mo: C2M_T[mo.group(1)], txt)
+
+
+def c_caller(k, name, c, b, info):
+    """C source (for c2mir) of a function calling callee `name` with the sentinel values of b"""
+    lines, argv = [], []
+    nnamed = len(c["args"])
+    for j, t in enumerate(all_args(c)):
+        n, sz = tparse(t)
+        if n in INT_T:
+            ct = C2M_T[CT[n]] if j < nnamed else "long"
+            argv.append(f"({ct}) {b.raw[j]}ul")
+        elif n in ("p", "rblk"):
+            argv.append(f"(void *) {b.raw[j] if n == 'p' else 64 * j}ul")
+        elif n == "f":
+            lines.append(f"  union {{ unsigned u; float f; }} u{j} = {{{b.exp[j][0][0]}u}};")
+            argv.append(f"u{j}.f")
+        elif n == "d":
+            lines.append(f"  union {{ unsigned long u; double f; }} u{j} = {{{b.exp[j][0][0]}ul}};")
+            argv.append(f"u{j}.f")
+        elif n == "ld":
+            bs = b.exp[j][0][0].to_bytes(8, "little") + b.exp[j][1][0].to_bytes(2, "little") + bytes(6)
+            lines.append(f"  union {{ unsigned char b[16]; long double f; }} u{j} = {{{{{','.join(str(x) for x in bs)}}}}};")
+            argv.append(f"u{j}.f")
+        else:
+            bs = b"".join(v.to_bytes(8, "little") for (v, nb, rel) in b.exp[j])[:sz]
+            lines.append(f"  union {{ unsigned char b[{sz}]; struct S_{name}_{j} s; }} u{j} = {{{{{','.join(str(x) for x in bs)}}}}};")
+            argv.append(f"u{j}.s")
+    rtype = c2m_types(info["rtype"])
+    plist = ", ".join(c2m_types(x) for x in info["params"]) if info["params"] else "void"
+    if c["va"] is not None:
+        plist += ", ..."
+    head = [c2m_types(d) for d in info["decls"]]
+    head.append(f"extern {rtype} {name} ({plist});")
+    head.append(f"extern int c05_chk_{name} ({'void' if rtype == 'void' else rtype + ' r'});")
+    call = f"{name} ({', '.join(argv)})"
+    body = [f"static void t_{k} (void) {{"] + lines
+    if rtype == "void":
+        body += [f"  {call};", f"  c05_note ({k});", f"  c05_resbad ({k}, c05_chk_{name} ());"]
+    else:
+        body += [f"  {rtype} r = {call};", f"  c05_note ({k});", f"  c05_resbad ({k}, c05_chk_{name} (r));"]
+    body.append("}")
+    return "\n".join(head + body) + "\n"
+
+
+def c2m_shapes(rng, n_random):
+    """C prototypes in which the register counters of c2mir's own classification matter: long doubles,
+    doubles and integers in front of small structs of every class, then more integers"""
+    out = []
+    tails = [["blk1:16", "i64"], ["blk1:8", "i64", "i64"], ["blk3:16", "i64", "d"], ["blk4:16", "i32"], ["blk2:16", "d"],
+             ["blk1:12", "blk1:16", "i64"]]
+    for nld in range(0, 7):
+        for nint in range(0, 7):
+            tl = tails[(nld + nint) % len(tails)] if (nld, nint) != (5, 0) else tails[0]
+            out.append({"res": ["i64"], "args": ["ld"] * nld + ["i64"] * nint + tl, "va": None})
+    for nd in range(0, 9, 2):
+        for nld in (0, 2, 5):
+            out.append({"res": ["d"], "args": ["ld"] * nld + ["d"] * nd + ["blk2:16", "blk3:16", "d", "i64"], "va": None})
+    for nld in (1, 3, 6):
+        out.append({"res": [], "args": ["i32"] + ["ld"] * nld, "va": ["blk1:16", "i64", "d"]})
+        out.append({"res": ["ld"], "args": ["ld"] * nld + ["blk0:24", "blk1:9", "p", "u8", "blk1:16", "i16"], "va": None})
+    wts = [("i64", 3), ("i32", 2), ("u8", 1), ("i16", 1), ("p", 1), ("d", 3), ("f", 2), ("ld", 4), ("blk0", 2), ("blk1", 5),
+           ("blk2", 3), ("blk3", 3), ("blk4", 3)]
+    for _ in range(n_random):
+        n = 2 + rng.below(13)
+        args = [rand_type(rng, wts, GCC_SIZES) for _ in range(n)]
+        va = None
+        if rng.chance(1, 5) and len(args) > 1:
+            cut = 1 + rng.below(len(args) - 1)
+            tail = [t for t in args[cut:] if va_type_ok(t)]
+            args, va = args[:cut], tail
+        res = rng.choice([[], ["i64"], ["i32"], ["d"], ["ld"], ["u8"], ["f"], ["i64", "u64"], ["p", "d"], ["d", "i64"],
+                          ["d", "d"]])
+        out.append({"res": res, "args": args, "va": va})
+    return [c for c in out if gcc_supported(c)]
+
+
+C2M_SO_EXTRA = """#include <stdio.h>
+#define NC %d
+static uint64_t m_[NC], c_[NC], a_[NC], r_[NC];
+void c05_note (int k) { m_[k] = c05_gmask; c_[k] = c05_gcalls; a_[k] = c05_galign; c05_gmask = ~0ull; c05_gcalls = 0; c05_galign = 99; }
+void c05_resbad (int k, int bad) { r_[k] = (uint64_t) bad; }
+void c05_report (void) {
+  for (int k = 0; k < NC; k++)
+    printf ("R %%d %%llu %%llx %%llu %%llu\\n", k, (unsigned long long) c_[k], (unsigned long long) m_[k],
+            (unsigned long long) a_[k], (unsigned long long) r_[k]);
+  fflush (stdout);
+}
+"""
+
+
+def c2m_stage(ck, rn, c2m_exe, cases, engines=("-ei", "-eg")):
+    """C compiled by c2mir (its own ABI classification, c2mir/x86_64/cx86_64-ABI-code.c) calls gcc-compiled
+    callees generated from the same prototypes.  Returns list of (case, engine, discrepancies)."""
+    builds = [build(c, rn.sentinel_seed(c)) for c in cases]
+    ms = rn.model.place([case_line(c) for c in cases])
+    pairs = []
+    for c, b in zip(cases, builds):
+        pairs += passint_pairs(c, b)
+    model_x = dict(zip(pairs, rn.model.passint(pairs)))
+    callee_src, caller_src = [], []
+    for k, (c, b, m) in enumerate(zip(cases, builds, ms)):
+        info = {}
+        callee_src.append(c_callee(f"cal{k}", c, b, m, model_x, info=info))
+        caller_src.append(c_caller(k, f"cal{k}", c, b, info))
+    d = so_dir()
+    tag = hashlib.sha256(("".join(callee_src)).encode()).hexdigest()[:12]
+    so = os.path.join(d, f"libc05c_{tag}.so")
+    cpath = os.path.join(d, f"c05c_{tag}_callee.c")
+    with open(cpath, "w") as f:
+        f.write(C_PRELUDE + (C2M_SO_EXTRA % len(cases)) + "".join(callee_src))
+    p = subprocess.run(["gcc", "-O1", "-fno-omit-frame-pointer", "-fPIC", "-shared", "-w", cpath, "-o", so],
+                       stdout=subprocess.PIPE, stderr=subprocess.STDOUT, text=True, timeout=600,
+                       preexec_fn=child_limits(cpu_s=600, fsize=256 << 20))
+    if p.returncode != 0:
+        ck.broken_ties.append({"kind": "gcc-oracle-compile", "name": "c2m stage callees", "log": p.stdout[-1500:]})
+        return []
+    caller = os.path.join(d, f"c05c_{tag}_caller.c")
+    with open(caller, "w") as f:
+        f.write("extern void c05_note (int k);\nextern void c05_resbad (int k, int bad);\nextern void c05_report (void);\n" +
+                "".join(caller_src) + "int main (void) {\n" + "".join(f"  t_{k} ();\n" for k in range(len(cases))) +
+                "  c05_report ();\n  return 0;\n}\n")
+    out = []
+    for eng in engines:
+        try:
+            r = subprocess.run([c2m_exe, caller, f"-L{d}", f"-lc05c_{tag}", eng], stdout=subprocess.PIPE,
+                               stderr=subprocess.PIPE, text=True, timeout=300, cwd=d,
+                               preexec_fn=child_limits(cpu_s=300, fsize=64 << 20))
+            rc, txt, err = r.returncode, r.stdout, r.stderr
+        except subprocess.TimeoutExpired:
+            rc, txt, err = -99, "", "timeout"
+        rows = {}
+        for line in txt.split("\n"):
+            t = line.split()
+            if len(t) == 6 and t[0] == "R":
+                rows[int(t[1])] = (int(t[2]), int(t[3], 16), int(t[4]), int(t[5]))
+        if rc != 0 or len(rows) != len(cases):
+            out.append((None, eng, [{"kind": "crash", "detail": f"c2m rc={rc} {err[-400:]}", "rows": len(rows)}]))
+            if not rows:
+                continue
+        for k, c in enumerate(cases):
+            if k not in rows:
+                continue
+            calls, mask, align, rbad = rows[k]
+            prop = []
+            if calls != 1:
+                prop.append({"kind": "calls", "detail": calls})
+            else:
+                for j, t in enumerate(all_args(c)):
+                    if mask >> j & 1:
+                        prop.append({"kind": "arg", "arg": j, "type": t, "oracle": "gcc callee, C caller compiled by c2mir"})
+                if align != 0:
+                    prop.append({"kind": "align", "detail": align})
+                if rbad:
+                    prop.append({"kind": "res", "type": ",".join(c["res"]), "oracle": "c2mir caller"})
+            rn.n_eval += 1
+            out.append((c, eng, prop))
+    return out
 
 
 C_PRELUDE = """#include <stdint.h>
@@ -1204,8 +1386,13 @@ def main():
     srcs = ["harness/c05_harness.c", "harness/c05_probe.S", os.path.join(REPO, "mir.c"), os.path.join(REPO, "mir-gen.c")]
     exes = ck.cc_par([("c05_harness", srcs, ["-O1", "-g", "-DNDEBUG", "-w"]),
                       ("c05_harness_asan", srcs, ["-O1", "-g", "-DNDEBUG", "-w", "-fsanitize=address",
-                                                  "-fno-omit-frame-pointer"])])
-    exe, exe_asan = exes["c05_harness"], exes["c05_harness_asan"]
+                                                  "-fno-omit-frame-pointer"]),
+                      ("c05_c2m", [os.path.join(REPO, "c2mir", "c2mir-driver.c"), os.path.join(REPO, "c2mir", "c2mir.c"),
+                                   os.path.join(REPO, "mir.c"), os.path.join(REPO, "mir-gen.c")],
+                       ["-O1", "-DNDEBUG", "-w"])])
+    exe, exe_asan, exe_c2m = exes["c05_harness"], exes["c05_harness_asan"], exes["c05_c2m"]
+    if exe_c2m is None:
+        ck.broken_ties.append({"kind": "harness-compile", "name": "c05_c2m", "log": getattr(ck, "last_cc_log", "")[-1500:]})
     if exe_asan is None:
         ck.broken_ties.append({"kind": "harness-compile", "name": "c05_harness_asan", "log": getattr(ck, "last_cc_log", "")[-1500:]})
     if exe is None:
@@ -1302,6 +1489,18 @@ def main():
     if ck.replay:
         rp = json.load(open(ck.replay))
         inp = rp.get("input", {})
+        if "c_prototype" in inp and exe_c2m is not None:
+            c = case_from_line(inp["c_prototype"])
+            eng = inp.get("engine", "c2m -ei").split()[-1]
+            rr = c2m_stage(ck, rn, exe_c2m, [c], engines=(eng,))
+            for (c2, e2, prop) in rr:
+                ck.log(f"replay c2m {e2} `{case_line(c)}`: {prop[:4]}")
+                if prop:
+                    ck.violation({"stage": "tie", "input": inp, "impl_output": {"discrepancies": prop[:6]}},
+                                 what=f"c2m {e2}: C call with parameter list `{case_line(c)}`: {prop[0]}",
+                                 signature=rp.get("signature"))
+            ck.cov["evaluations"] = rn.n_eval
+            ck.finish()
         if "sequence" in inp:
             sq = [case_from_line(l) for l in inp["sequence"]]
             eng = inp.get("engine", "i")
@@ -1474,6 +1673,57 @@ def main():
                                    "flag, named/variadic split, argument count with equal prefix, result count), all calls "
                                    "of a sequence in ONE context; plus every ordered pair of legal result lists of length <= "
                                    f"{3 if thorough else 2} over {RES_ALPHA} differing in one position"}
+
+    # ---- stage 3d: C compiled by c2mir (its own psABI classification) calls gcc-compiled callees
+    if exe_c2m is not None:
+        t2 = time.time()
+        ccases = c2m_shapes(ck.rng, 1500 if thorough else 250)
+        model.place([case_line(c) for c in ccases])
+        ccases = [c for c in ccases if fits(c)]
+        cres = []
+        CH = 200
+        with ThreadPoolExecutor(max_workers=8) as ex:
+            for part in ex.map(lambda k: c2m_stage(ck, rn, exe_c2m, ccases[k:k + CH]), range(0, len(ccases), CH)):
+                cres += part
+        c2m_seen = set()
+        n_c2m_fail = 0
+        for (c, eng, prop) in cres:
+            if not prop:
+                continue
+            n_c2m_fail += 1
+            p0 = prop[0]
+            sig = f"C05:c2mir-call-{p0['kind']}-{tparse(str(p0.get('type') or 'x').split(',')[0])[0]}"
+            if sig in c2m_seen or len(c2m_seen) >= 5:
+                continue
+            c2m_seen.add(sig)
+            small, sprop = c, prop
+            if c is not None:                      # greedy minimisation: drop arguments while it still fails
+                changed, budget = True, 40
+                while changed and budget > 0:
+                    changed = False
+                    for i in range(len(small["args"]) - 1, -1, -1):
+                        cand = {**small, "args": small["args"][:i] + small["args"][i + 1:]}
+                        if not gcc_supported(cand):
+                            continue
+                        budget -= 1
+                        rr = [x for x in c2m_stage(ck, rn, exe_c2m, [cand], engines=(eng,)) if x[2]]
+                        if rr and rr[0][2][0]["kind"] == p0["kind"]:
+                            small, sprop, changed = cand, rr[0][2], True
+                            break
+            line = case_line(small) if small is not None else "(whole batch)"
+            ck.violation({"stage": "tie", "theorem_or_correspondence": "sysvPlace vs C caller compiled by c2mir calling a gcc callee",
+                          "input": {"c_prototype": line, "engine": "c2m " + eng, "oracle": "gcc-callee"},
+                          "model_output": {"sysv": model.place([line])[0]["SYSV"] if small is not None else None},
+                          "impl_output": {"discrepancies": sprop[:6]},
+                          "spec_verdict": "a gcc-compiled callee does not receive the values the C caller (compiled by c2mir) passed",
+                          "how_to_rerun": "cd /verif && ./check C05 --replay <this file>"},
+                         what=f"c2m {eng}: C call with parameter list `{line}`: {sprop[0]}", signature=sig)
+        ck.log(f"c2mir callers: {len(ccases)} C prototypes x (-ei, -eg) against gcc callees, {n_c2m_fail} failing: {time.time() - t2:.1f}s")
+        ck.cov["c2mir_callers"] = {"prototypes": len(ccases), "engines": ["-ei", "-eg"], "failing": n_c2m_fail,
+                                   "rule": "0..6 long doubles x 0..6 integers (and doubles) in front of small structs of every "
+                                           "register class followed by more scalars; variadic tails; random mixes of "
+                                           "ld/int/fp/struct parameters; the C caller is compiled by c2mir from REPO, the callee "
+                                           "by gcc from the same prototype"}
 
     # ---- stage 4: judge
     dist = {"engines": {}, "arg_types": {}, "nargs": {}, "stack_words": {}, "variadic": 0, "results": {},
